@@ -210,6 +210,46 @@ def pbes_mutants(r):
     return out
 
 
+def semantic_mutants(mat):
+    """well-formed DER whose members have the wrong type or a degenerate value (F17 family, zero components): present in
+    every run whatever the seed, with input classes that say what is wrong"""
+    rsa, dsa = mat["rsa"], mat["dsa"]
+    P, Q, G = DSA_P, DSA_Q, DSA_G
+    octs = lambda n: DerOctetString(bytes(bemin(n))).encode()  # noqa: E731
+    out = []
+
+    def dsa_variants(cls, p, q, g):
+        params = DerSequence([p, q, g])
+        out.append(("DSA", "pkcs8", cls, PKCS8.wrap(DerInteger(int(dsa.x)).encode(), DSA.oid, key_params=params)))
+        out.append(("DSA", "spki", cls, DerSequence([DerSequence([DerObjectId(DSA.oid), params]), DerBitString(DerInteger(int(dsa.y)))]).encode()))
+    dsa_variants("dsa-domain-p-octet-string", octs(P), Q, G)
+    dsa_variants("dsa-domain-q-octet-string", P, octs(Q), G)
+    dsa_variants("dsa-domain-g-null", P, Q, DerNull().encode())
+    dsa_variants("dsa-domain-p-zero", 0, Q, G)
+    dsa_variants("dsa-domain-q-zero", P, 0, G)
+    dsa_variants("dsa-domain-g-zero", P, Q, 0)
+    dsa_variants("dsa-domain-negative", -P, Q, G)
+    out.append(("DSA", "pkcs8", "dsa-domain-two-members", PKCS8.wrap(DerInteger(int(dsa.x)).encode(), DSA.oid, key_params=DerSequence([P, Q]))))
+    out.append(("DSA", "pkcs8", "dsa-domain-absent", PKCS8.wrap(DerInteger(int(dsa.x)).encode(), DSA.oid, key_params=None)))
+    out.append(("DSA", "pkcs8", "dsa-private-value-octet-string", PKCS8.wrap(octs(int(dsa.x)), DSA.oid, key_params=DerSequence([P, Q, G]))))
+    for i, name in ((1, "p"), (2, "q"), (3, "g"), (4, "y"), (5, "x")):
+        ints = [0, P, Q, G, int(dsa.y), int(dsa.x)]
+        ints[i] = 0
+        out.append(("DSA", "openssl-private", "dsa-%s-zero" % name, DerSequence(ints).encode()))
+    comps = [0, int(rsa.n), int(rsa.e), int(rsa.d), int(rsa.p), int(rsa.q), int(rsa.d % (rsa.p - 1)), int(rsa.d % (rsa.q - 1)), int(rsa.u)]
+    for i, name in ((1, "n"), (2, "e"), (3, "d"), (4, "p"), (5, "q")):
+        c = list(comps)
+        c[i] = 0
+        out.append(("RSA", "pkcs1-private", "rsa-%s-zero" % name, DerSequence(c).encode()))
+        c[i] = -comps[i]
+        out.append(("RSA", "pkcs1-private", "rsa-%s-negative" % name, DerSequence(c).encode()))
+    out.append(("RSA", "pkcs1-public", "rsa-n-zero", DerSequence([0, 65537]).encode()))
+    out.append(("RSA", "pkcs1-public", "rsa-e-zero", DerSequence([int(rsa.n), 0]).encode()))
+    out.append(("RSA", "pkcs8", "rsa-inner-key-empty", PKCS8.wrap(b"", RSA.oid)))
+    out.append(("RSA", "pkcs8", "rsa-inner-key-not-der", PKCS8.wrap(b"\x01\x02\x03", RSA.oid)))
+    return out
+
+
 # ------------------------------------------------------------------------------------------------ text-level inputs
 def ssh_lines(mat):
     rsa, dsa = mat["rsa"], mat["dsa"]
@@ -448,6 +488,14 @@ def mutants(inp):
                 add("PKCS8.unwrap", s, PW if needpw else None, **dict(common, strictable=strict_p8))
                 if k == 3 or cls == "unmodified":
                     add("PKCS8.unwrap", s, None if needpw else PW, **dict(common, strictable=strict_p8))
+    # ---- well-formed DER with members of the wrong type or degenerate values
+    for typ, fmt, cls, s in semantic_mutants(mat):
+        common = dict(fmt="%s/%s" % (typ, fmt), mut=cls, path=[], der=list(s), armour="der", strictable=False)
+        for e in ("RSA.import_key", "DSA.import_key", "ECC.import_key"):
+            add(e, s, None, **common)
+        add(typ + ".import_key", s, PW, **common)
+        if fmt == "pkcs8":
+            add("PKCS8.unwrap", s, None, **common)
     # ---- PBES containers with well-formed but meaningless parameters
     for cls, s in pbes_mutants(r):
         common = dict(fmt="DSA/pkcs8-pbes", mut=cls, path=[], der=list(s), armour="der", strictable=False)
